@@ -528,7 +528,8 @@ def run_item(case, root, tier, seed, opts, out, donate=None):
 
 def _cases(mod, tier):
     """The case list of a tier (see THOROUGH_CASES in run_property)."""
-    if tier == "thorough" and getattr(mod, "THOROUGH_CASES", "deep") == "quick":
+    if tier == "thorough" and getattr(mod, "THOROUGH_CASES", "deep") == "quick" \
+            and not os.environ.get("VERIF_THOROUGH_DEEP"):
         return mod.cases("quick")
     return mod.cases(tier)
 
@@ -617,7 +618,8 @@ def run_property(prop, modname, tier, seed, meta, jobs=None, budget_s=None):
     t0 = time.time()
     mod = importlib.import_module(modname)
     cases = _cases(mod, tier)
-    if tier == "thorough" and getattr(mod, "THOROUGH_CASES", "deep") == "quick":
+    if tier == "thorough" and getattr(mod, "THOROUGH_CASES", "deep") == "quick" \
+            and not os.environ.get("VERIF_THOROUGH_DEEP"):
         # the deeper case list of this property could not be re-validated end to end in the time available
         # after the last round of harness changes: the thorough tier then runs the quick tier's cases with
         # the second solver on every obligation (stated in the evidence)
